@@ -11,18 +11,19 @@ Section Routing.
 Variable S : Type.
 Variable react : S -> mid -> mstate -> json -> option mstate * list json.
 Variable decode_src : json -> option S.
+Variable resolves : S -> bool.
 Variable src_eqb : S -> S -> bool.
 Variable ord : forall A : Type, list (mid * A) -> list (mid * A).
 Hypothesis ord_perm : forall A l, Permutation (ord A l) l.
 
 Local Notation crew := (crew S).
 Local Notation round := (round S).
-Local Notation present := (present S react decode_src).
-Local Notation run_list := (run_list S react decode_src).
-Local Notation run_machines := (run_machines S react decode_src ord).
-Local Notation process := (process S react decode_src ord).
-Local Notation process_msg := (process_msg S react decode_src src_eqb ord).
-Local Notation set_machine := (set_machine S).
+Local Notation present := (present S react decode_src resolves).
+Local Notation run_list := (run_list S react decode_src resolves).
+Local Notation run_machines := (run_machines S react decode_src resolves ord).
+Local Notation process := (process S react decode_src resolves ord).
+Local Notation process_msg := (process_msg S react decode_src resolves src_eqb ord).
+Local Notation set_machine := (set_machine S resolves).
 Local Notation delete_machine := (delete_machine S).
 Local Notation can_see := (can_see S).
 
@@ -56,7 +57,7 @@ Proof.
   rewrite aget_adel. destruct (String.eqb m' m); auto.
 Qed.
 
-Lemma do_op_wf c op : op_ordinary S op = true -> wf_crew c -> wf_crew (do_op S c op).
+Lemma do_op_wf c op : op_ordinary S op = true -> wf_crew c -> wf_crew (do_op S resolves c op).
 Proof.
   unfold op_ordinary, do_op. intros H W. apply andb_true_iff in H as [Hu Hd].
   rewrite forallb_forall in Hu, Hd.
@@ -534,7 +535,7 @@ Qed.
 
 (** every crew reached by a history from the initial crew is well formed *)
 Lemma hstep_wf fuel c store h c1 store1 r :
-  wf_crew c -> hstep S react decode_src src_eqb ord fuel (c, store) h = Done (c1, store1, r) -> wf_crew c1.
+  wf_crew c -> hstep S react decode_src resolves src_eqb ord fuel (c, store) h = Done (c1, store1, r) -> wf_crew c1.
 Proof.
   intros W. destruct h as [msg|m src st|m]; simpl.
   - destruct (process_msg fuel c msg) as [[c2 r2]| |] eqn:HP; simpl; try discriminate.
@@ -544,14 +545,14 @@ Proof.
 Qed.
 
 Theorem run_history_wf fuel h : forall c store c1 store1,
-  wf_crew c -> run_history S react decode_src src_eqb ord fuel (c, store) h = Done (c1, store1) -> wf_crew c1.
+  wf_crew c -> run_history S react decode_src resolves src_eqb ord fuel (c, store) h = Done (c1, store1) -> wf_crew c1.
 Proof.
   induction h as [|x r IH]; intros c store c1 store1 W H.
   - simpl in H. injection H as <- <-. exact W.
-  - change (obind (hstep S react decode_src src_eqb ord fuel (c, store) x)
-                  (fun '(c1, s1, _) => run_history S react decode_src src_eqb ord fuel (c1, s1) r)
+  - change (obind (hstep S react decode_src resolves src_eqb ord fuel (c, store) x)
+                  (fun '(c1, s1, _) => run_history S react decode_src resolves src_eqb ord fuel (c1, s1) r)
             = Done (c1, store1)) in H.
-    destruct (hstep S react decode_src src_eqb ord fuel (c, store) x) as [[[c2 s2] r2]| |] eqn:HS;
+    destruct (hstep S react decode_src resolves src_eqb ord fuel (c, store) x) as [[[c2 s2] r2]| |] eqn:HS;
       simpl in H; try discriminate.
     eapply IH; [|exact H]. eapply hstep_wf; eauto.
 Qed.
